@@ -1,6 +1,6 @@
 """C18 — no leaks over long sessions: every internal stack push is popped on every path; no
 descriptor / ownership escape hatch (DESIGN §3 C18)."""
-from rulelib import (SHIPPED, Summaries, call_sites, cfg_of, defs_of, owner, pair_escapes)
+from rulelib import (SHIPPED, Summaries, call_sites, callgraph, cfg_of, defs_of, owner, pair_escapes)
 from dataflow import origins
 from facts import canon
 
@@ -209,3 +209,42 @@ def run(prog, chk):
                     chk.fail("R18.3", "brush_core::openfiles::OpenFile", "variant:%s" % v["name"],
                              "OpenFile::%s holds %s which is not a reviewed RAII owner" % (v["name"], f["ty"]))
         chk.floor("R18.3", "OpenFile fields", nv, 7)
+    persistent_descriptor_release_rule(prog, chk)
+
+
+PERSISTENT_ADD = "brush_core::openfiles::OpenFiles::add"
+PERSISTENT_REMOVE = ("brush_core::openfiles::OpenFiles::remove_fd",)
+ADD_ONCE_PER_PROCESS = {
+    "brush_shell::entry::enable_xtrace_to_file": "start-up: one descriptor for the lifetime of the process",
+}
+JOB_COMPLETION_ENTRY_POINTS = ("brush_core::jobs::JobManager::poll", "brush_core::jobs::JobManager::sweep_completed_jobs", "brush_core::jobs::JobManager::wait_all",
+                               "brush_core::jobs::Job::wait", "brush_core::shell::Shell::check_for_completed_jobs")
+
+
+def persistent_descriptor_release_rule(prog, chk):
+    """R18.4: a command that allocates descriptors in the shell's *persistent* table (OpenFiles::add through open_files_mut — today only
+    `coproc`) must have a release: some function that removes descriptors from that table and is reachable from the allocating function
+    itself or from the places where the job it created is reaped. Otherwise every execution of the command leaves its descriptors
+    behind and the k-th iteration runs with 2k more open descriptors than the first."""
+    chk.rule("R18.4", "descriptors allocated in the persistent table per command (coproc) are released when the coprocess ends or is replaced")
+    cg = callgraph(prog)
+    adders = {}
+    for b, bb, t in prog.callers_of(PERSISTENT_ADD, crates=SHIPPED):
+        adders.setdefault(owner(b.name), []).append((b, t))
+    chk.floor("R18.4", "functions allocating persistent descriptors", len(adders), 1)
+    removers = {owner(b.name) for nm in PERSISTENT_REMOVE for b, bb, t in prog.callers_of(nm, crates=SHIPPED)}
+    for fn, sites in sorted(adders.items()):
+        if fn in ADD_ONCE_PER_PROCESS:
+            chk.ok("R18.4", "once:" + fn.rsplit("::", 1)[-1], ADD_ONCE_PER_PROCESS[fn], nontrivial=False, function=fn)
+            continue
+        roots = {sites[0][0].name, fn} | set(JOB_COMPLETION_ENTRY_POINTS)
+        reach = cg.reachable_from({r for r in roots if prog.body(r) is not None or r in cg.edges})
+        reach_owners = {owner(x) for x in reach}
+        rel = sorted(r for r in removers if r in reach_owners and r != "brush_core::interp::setup_redirect")
+        if rel:
+            chk.ok("R18.4", "released:" + fn.rsplit("::", 1)[-1], "release through %s" % rel[0], function=fn)
+        else:
+            chk.fail("R18.4", fn, "persistent-descriptors-never-released",
+                     "%s allocates %d descriptors in the shell's persistent table (line %s) and nothing reachable from it or from the job-reaping functions removes them: "
+                     "`for i in $(seq 50); do coproc { :; }; wait; done` ends with 200 more open descriptors than it started with"
+                     % (fn, len(sites), sites[0][1].line))
